@@ -10,6 +10,14 @@ TRUSTED_BASE = [
 ]
 
 REG = {
+    "C05": {
+        "assumptions": [
+            "the governing privilege per request class is fixed by the reference table coq/Auth/GuardSpec.v (from the protocol document's Access lines and the property text; spec/privileges.md)",
+            "the decision model is 'all governing bits held'; handler bodies are not modelled in Coq: the tie between each handler and its decision is the translator (which Access constants each handler tests) plus the bit-sweep correspondence on the real handlers",
+            "effects of PERMITTED requests are the subject of the other properties; here a refusal is checked to be pure (one error reply, nothing queued, no file/account/news/ban change)",
+        ],
+        "trusted_base": ["translator: Gen/Handlers.v (handler_guards, registered)", "reference tables Auth/GuardSpec.v transcribed by hand"],
+    },
     "C06": {
         "assumptions": [
             "the account map/ban list effects are observed through the real YAMLAccountManager and BanFile on a sandbox directory",
